@@ -78,14 +78,20 @@ func (s *Server) processSubscribeRequest(ctx context.Context, sctx *subContext, 
 		// ... and relay it to each target using its specific subscription
 		log.Debugf("Split target requests: %+v", sctx.treqs)
 		for target, targetReq := range sctx.treqs {
-			_ = s.sendSubscriptionRequest(ctx, sctx, target, targetReq)
+			// A subscription that cannot be relayed (unknown target, no connection, stream not opened) is
+			// answered with that error, not with silence
+			if err := s.sendSubscriptionRequest(ctx, sctx, target, targetReq); err != nil {
+				return err
+			}
 		}
 
 	} else if req.GetPoll() != nil {
 		// If the request is a poll, relay it to the previously subscribed targets
 		log.Debugf("Relaying poll to targets")
 		for target := range sctx.treqs {
-			_ = s.sendPollRequest(ctx, target)
+			if err := s.sendPollRequest(ctx, target); err != nil {
+				return err
+			}
 		}
 	} else {
 		return errors.NewInvalid("unknown subscription message type")
